@@ -3,11 +3,17 @@ From Bfe Require Import lib.Val lib.Bytes model.BasicRoute model.ClusterLookup r
 Import ListNotations.
 Open Scope Z_scope.
 
-(* input : [ basic adv [VB host; VB path; VB method] ]
-     basic = [] (product has no basic table) | [rules]   with rules as in C11
-     adv   = [] (product has no advanced table) | [[ [VZ kind; VL args; VB cluster] ... ]]
-             kind 0 = default_t(), 1 = req_method_in(args joined by |), 2 = req_path_prefix_in(args joined by |, false)
-   output: [VB cluster; VZ err]   err 0 ok, 1 ErrNoProductRule, 2 ErrNoMatchRule;  VErr 1 = configuration rejected *)
+(* input : [ stage ... ]   the stages are applied to the SAME HostTable object in order: RouteConfLoad(stage file),
+           HostTable.Update, then the stage's requests (act -> reload -> act)
+     stage    = [ products requests ]
+     products = [[VB name; basic; adv] ...]   (distinct names; this is the route table file: product => rules)
+       basic = [] (product has no basic table) | [rules]   with rules as in C11
+       adv   = [] (product has no advanced table) | [[ [VZ kind; VL args; VB cluster] ... ]]
+               kind 0 = default_t(), 1 = req_method_in(args joined by |), 2 = req_path_prefix_in(args joined by |, false)
+     requests = [[VB product; VB host; VB path; VB method; VZ url] ...]   (req.Route.Product, Host, URL.Path, Method;
+                url = 0: req.HttpRequest.URL is nil)
+   output: one value per stage: [[VB cluster; VZ err] ...]  err 0 ok, 1 ErrNoProductRule, 2 ErrNoMatchRule;
+           VErr 1 = the loader rejects the stage's file (no Update, requests skipped) *)
 Definition dec_adv_rule (v : val) : option (cond * bytes) :=
   match v with
   | VL [VZ k; args; VB cl] =>
@@ -24,53 +30,87 @@ Definition dec_opt {A} (f : val -> option A) (v : val) : option (option A) :=
   | VL [x] => match f x with Some a => Some (Some a) | None => None end
   | _ => None
   end.
-Definition dec_req (v : val) : option request :=
-  match v with VL [VB h; VB p; VB m] => Some (mkReq h p m) | _ => None end.
-Definition dec_C12 (i : val) : option (option (list rule) * option (list (cond * bytes)) * request) :=
-  match i with
-  | VL [b; a; q] =>
-    match dec_opt (dec_list dec_rule) b, dec_opt (dec_list dec_adv_rule) a, dec_req q with
-    | Some ob, Some oa, Some req => Some (ob, oa, req)
-    | _, _, _ => None
+(* a product as written in the file: its own basic rule list and its own advanced rule list *)
+Definition product_rules := (bytes * (option (list rule) * option (list (cond * bytes))))%type.
+Definition dec_product (v : val) : option product_rules :=
+  match v with
+  | VL [VB n; b; a] =>
+    match dec_opt (dec_list dec_rule) b, dec_opt (dec_list dec_adv_rule) a with
+    | Some ob, Some oa => Some (n, (ob, oa))
+    | _, _ => None
     end
   | _ => None
   end.
+Definition dec_req (v : val) : option (bytes * request) :=
+  match v with VL [VB p; VB h; VB pa; VB m; VZ u] => Some (p, mkReq h pa m (negb (u =? 0))) | _ => None end.
+Definition stage := (list product_rules * list (bytes * request))%type.
+Definition dec_stage (v : val) : option stage :=
+  match v with
+  | VL [ps; qs] =>
+    match dec_list dec_product ps, dec_list dec_req qs with
+    | Some prods, Some reqs => Some (prods, reqs)
+    | _, _ => None
+    end
+  | _ => None
+  end.
+Definition dec_C12 (i : val) : option (list stage) := dec_list dec_stage i.
+Definition wf_C12 (i : val) : bool := match dec_C12 i with Some _ => true | None => false end.
 Definition enc_cresult (r : cresult) : val :=
   match r with
   | COk cl => VL [VB cl; VZ 0]
   | CErrNoProductRule => VL [VB []; VZ 1]
   | CErrNoMatchRule => VL [VB []; VZ 2]
   end.
-(* load the basic table: None = rejected *)
+(* convertBasicRule for every product: None = some product's rules are rejected (the whole file is) *)
 Definition load_opt (ob : option (list rule)) : option (option htrees) :=
   match ob with
   | None => Some None
   | Some rules => match load_rules rules with Some t => Some (Some t) | None => None end
   end.
+Fixpoint load_table (prods : list product_rules) : option (list (product_entry cond)) :=
+  match prods with
+  | [] => Some []
+  | (n, (ob, oa)) :: r =>
+    match load_opt ob, load_table r with
+    | Some b, Some t => Some ((n, (b, oa)) :: t)
+    | _, _ => None
+    end
+  end.
+(* one stage; `answer prods tbl q` is the per-request answer (model: from the loaded table; spec: from the rule lists) *)
+Definition stage_out (answer : list product_rules -> list (product_entry cond) -> bytes * request -> cresult)
+           (st : stage) : val :=
+  match load_table (fst st) with
+  | Some tbl => VL (map (fun q => enc_cresult (answer (fst st) tbl q)) (snd st))
+  | None => VErr 1
+  end.
+Definition model_answer (prods : list product_rules) (tbl : list (product_entry cond)) (q : bytes * request) : cresult :=
+  lookup_table cond_holds tbl (fst q) (snd q).
 Definition run_C12 (i : val) : val :=
   match dec_C12 i with
-  | Some (ob, oa, req) =>
-    match load_opt ob with
-    | Some basic => enc_cresult (lookup_cluster cond_holds basic oa req)
-    | None => VErr 1
-    end
+  | Some stages => VL (map (stage_out model_answer) stages)
   | None => VErr 0
   end.
 Definition agree_C12 (i o : val) : bool := val_eqb (run_C12 i) o.
-(* the property, from the documentation: the documented basic choice (doc_route on the port-less host) when it
-   names a real cluster, otherwise the first advanced rule in order whose condition holds, otherwise an error *)
+(* the property, from the documentation, PER PRODUCT and PER STAGE: only the rules written under the request's own
+   product in the CURRENT file count: the documented basic choice (doc_route of C11 on the port-less host) when it
+   names a real cluster, otherwise the first of the product's advanced rules in order whose condition holds,
+   otherwise an error *)
+Definition spec_request (prods : list product_rules) (q : bytes * request) : cresult :=
+  let req := snd q in
+  match find_product (fst q) prods with
+  | Some (ob, oa) =>
+    let doc_basic := match ob with
+                     | Some rules => doc_route rules (strip_port (q_host req)) (eff_path req)
+                     | None => None
+                     end in
+    spec_cluster cond_holds doc_basic oa req
+  | None => CErrNoProductRule
+  end.
+Definition spec_answer (prods : list product_rules) (tbl : list (product_entry cond)) (q : bytes * request) : cresult :=
+  spec_request prods q.
 Definition prop_C12 (i o : val) : bool :=
   match dec_C12 i with
-  | Some (ob, oa, req) =>
-    match o with
-    | VL [VZ (-1); VZ _] => true
-    | _ =>
-      let doc_basic := match ob with
-                       | Some rules => doc_route rules (strip_port (q_host req)) (q_path req)
-                       | None => None
-                       end in
-      val_eqb o (enc_cresult (spec_cluster cond_holds doc_basic oa req))
-    end
+  | Some stages => val_eqb (VL (map (stage_out spec_answer) stages)) o
   | None => false
   end.
 Definition kf_C12 (i : val) : Z := 0.
